@@ -359,7 +359,7 @@ def job_unsorted_points():
 
 # ---------------------------------------------------------------- intervals_to_samples
 
-def job_samples(n, fs, maxT):
+def job_samples(n, fs, maxT, offset=0):
     def build(ctx):
         iv = ordered_intervals(ctx, 'i', n)
         ctx.assume(iv[n - 1, 1] <= maxT)
@@ -368,7 +368,7 @@ def job_samples(n, fs, maxT):
     def body(A, inp):
         iv = inp['iv']
         labels = ["L%d" % i for i in range(n)]
-        times, got = U.intervals_to_samples(iv, labels, offset=0, sample_size=fs, fill_value='FILL')
+        times, got = U.intervals_to_samples(iv, labels, offset=offset, sample_size=fs, fill_value='FILL')
         A.observe('times', list(times))
         A.observe('labels', got)
         K = len(times)
@@ -376,7 +376,7 @@ def job_samples(n, fs, maxT):
         # K = floor(max / fs), sample k at k*fs
         mx = iv[n - 1, 1]
         A.require(A.And(A.xle(K * fs, mx), A.xlt(mx, (K + 1) * fs)), 'samples:count')
-        A.require(all(abs(float(times[k]) - k * fs) <= 1e-6 * max(1.0, k * fs) for k in range(K)), 'samples:grid')
+        A.require(all(abs(float(times[k]) - (k * fs + offset)) <= 1e-6 * max(1.0, k * fs + offset) for k in range(K)), 'samples:grid')
         ok = True
         for k in range(K):
             p = float(times[k])
@@ -392,8 +392,8 @@ def job_samples(n, fs, maxT):
                     c = A.And(c, A.Not(inside[i2]))
             ok = A.And(ok, c)
         A.require(ok, 'samples:label-of-containing-interval')
-    return Job('C13', 'intervals_to_samples[n=%d,fs=%s,T<=%s]' % (n, fs, maxT), build, body,
-               funcs=['util.intervals_to_samples', 'util.interpolate_intervals'], bounds=dict(intervals=n, frame_size=fs, max_time=maxT))
+    return Job('C13', 'intervals_to_samples[n=%d,fs=%s,T<=%s%s]' % (n, fs, maxT, '' if not offset else ',offset=%s' % offset), build, body,
+               funcs=['util.intervals_to_samples', 'util.interpolate_intervals'], bounds=dict(intervals=n, frame_size=fs, max_time=maxT, offset=offset))
 
 
 # ---------------------------------------------------------------- boundaries <-> intervals
@@ -535,6 +535,11 @@ def jobs(tier):
     js.append(job_unsorted_points())
     for (n, fs, T) in ([(2, 0.5, 2.0), (1, 0.25, 1.0)] if q else [(2, 0.5, 2.0), (1, 0.25, 1.0), (3, 0.5, 4.0), (2, 0.125, 1.0)]):
         js.append(job_samples(n, fs, T))
+    # a non-zero offset: sample k sits at k*fs + offset and takes the label found *there*
+    js.append(job_samples(2, 0.5, 2.0, offset=0.25))
+    if not q:
+        js.append(job_samples(2, 0.25, 1.0, offset=0.125))
+        js.append(job_samples(3, 0.5, 2.0, offset=0.375))
     for n in ((1, 2, 3) if q else (1, 2, 3, 4)):
         js.append(job_boundaries(n))
     for n in ((1, 2) if q else (1, 2, 3)):
